@@ -30,8 +30,12 @@ func vIsASCII(s string) bool {
 func H_C14_keys() {
 	setMerge(true)
 	const P = "_connector:cbgo:"
-	n1 := nondetStr("g1", concretize(nondetInt("len1"), 0, 4))
-	n2 := nondetStr("g2", concretize(nondetInt("len2"), 0, 4))
+	maxName := 4
+	if tierThorough() {
+		maxName = 10
+	}
+	n1 := nondetStr("g1", concretize(nondetInt("len1"), 0, maxName))
+	n2 := nondetStr("g2", concretize(nondetInt("len2"), 0, maxName))
 	v1, v2 := nondetU16("vb1"), nondetU16("vb2")
 	assume(vIsASCII(n1) && vIsASCII(n2))
 	var id1, id2 []byte
